@@ -36,6 +36,9 @@ def generate(rng, idx, tier, variant):
         if rng.random() < 0.1:
             # the instance-level check list is the user's to extend (here: by a variable no equation assigns)
             ops.append({'op': 'grow_check', 'k': rng.randrange(4)})
+        if rng.random() < 0.08:
+            # one array of the caller's assigned, whole, to an endogenous and to another variable (attribute or key path)
+            ops.append({'op': 'assign_shared', 'k': rng.randrange(8), 'via': rng.choice(['attr', 'item', 'replace_values'])})
         if ops and rng.random() < 0.2:
             # history: the model is replaced by a reindexed version of itself (shifted, shrunk or grown)
             dn = rng.choice([0, 0, -1, -2, 1, 2])
@@ -154,6 +157,23 @@ def execute(schedule, ctx):
             ctx.probe('history:reindex')
             ctx.log(step, 'reindex', n)
             ctx.outcome('reindex', 'ok')
+            continue
+        if op['op'] == 'assign_shared':
+            others_ = [x for x in names if x not in endo]
+            if endo and others_:
+                a_ = np.arange(n, dtype=float) * 0.25 + 1.0 + op['k']
+                e_, o_ = endo[op['k'] % len(endo)], others_[op['k'] % len(others_)]
+                for nm_ in (e_, o_):
+                    if op['via'] == 'item':
+                        m[nm_] = a_
+                    elif op['via'] == 'replace_values':
+                        m.replace_values(**{nm_: a_})
+                    else:
+                        setattr(m, nm_, a_)
+                callers.append((o_, a_, a_.copy()))
+                ctx.probe('one-array-assigned-to-two-variables')
+            ctx.log(step, 'assign_shared')
+            ctx.outcome('assign_shared', 'ok')
             continue
         if op['op'] == 'grow_check':
             if nonendo:
